@@ -214,8 +214,8 @@ def run_once(spec, plan):
     from prettyprinter import pformat
     v = build(spec)
     # every run starts from the same registries: the by-name printer of BaseByName is pending again
-    R = registry.get()
-    R.restore()
+    # (no snapshot restore here: whatever an earlier run left behind in the package must stay visible to the
+    # next one - "later calls are unaffected by an earlier failure" is part of the property)
     from prettyprinter import register_pretty
     for name, fn in DEFERRED.items():
         register_pretty(name)(fn)          # public API: registered by name, pending until first use
